@@ -5,6 +5,12 @@ props = [json.loads(l) for l in open('/verif/properties.jsonl')]
 ids = [p['id'] for p in props]
 
 CHECKS = {
+ "C06": dict(category="exploration", technique="differential runtime monitor over exhaustively enumerated pattern matrices (refsem first-match oracle vs executed Go)",
+   text="For 17 scrutinee shapes all pattern matrices up to 2 (quick) / 3 (thorough) rows over the full cell alphabet (wildcard, variable, literals, constructors with sub-patterns to depth 2, struct patterns with permuted fields) are compiled - 40 matrices per program - and applied to every value of the shape; each arm prints its index and bound variables, the scrutinee carries a tick; values no row matches are executed last and must fail there; integer-literal matrices without catch-all must be rejected at compile time. Larger (4-7 row) matrices are sampled.",
+   design_ref="DESIGN.md 4/C06", note="exhaustive sub-spaces are listed in the evidence counters (exhaustive:<shape>:rows<k>); beyond the cap matrices are sampled"),
+ "C09": dict(category="exploration", technique="differential runtime monitor on effect-instrumented programs + schedule exploration of `go` programs on gomini's scheduler",
+   text="54 expression forms x every assignment of {pure, print tick, Ref bump} to their operand positions (exhaustive, 870 tests) and every failing position (division by zero inside the operand) are compiled and executed; the ordered output, Ref digit trail and failure point must equal refsem's. Random effect-heavy programs add depth. `go` programs (spawn, interleaved Ref work, join by flag) are run deterministically, under 24 random fair schedules and under systematic enumeration of scheduling choices; every run must start exactly one activation per `go` and print the schedule-independent expected output.",
+   design_ref="DESIGN.md 4/C09", note="schedules are gomini's cooperative ones (yield at Ref helpers, prints, loop back-edges); the real Go scheduler and memory model are not exercised"),
  "C15": dict(category="fault_enumeration", technique="offline history checker against an executable model + fault enumeration over artifact files",
    text="Part A drives histories of {edit body, edit interface (8 kinds), check, build, link} against the real separate-compilation entry points with artifacts on disk and checks every logged call/return against a model of which interface state each artifact was built from and against: link must succeed iff every core's recorded dependency state equals the dependency core's own state; equal interface states must hash equal and different ones differently. Exhaustive over all op sequences up to length 3 (quick) / 5 (thorough) on a 2-package graph, random histories up to length 30 on 2-5 package DAGs. Part B corrupts every scalar leaf of valid .interface/.core files (change, delete, retype) and offers the file to every read path, plus format_version/compiler_abi bumps with a recomputed hash.",
    design_ref="DESIGN.md 4/C15", note="forgeries that alter content and recompute the hash are out of scope (except the version bump the property names); void corruptions (re-serialisation identical) are not counted"),
